@@ -4,6 +4,9 @@ import (
 	"encoding/json"
 	"flag"
 	"fmt"
+	"math"
+	"math/rand"
+	"os"
 	"reflect"
 	"strconv"
 	"strings"
@@ -97,7 +100,7 @@ func buildVal(t tdesc, v vdesc, rt reflect.Type) reflect.Value {
 			panic("universe: " + rawStr(v.V) + " is not a " + t.K)
 		}
 		out.SetFloat(f)
-	case "string":
+	case "string", "ustr", "uany":
 		out.SetString(rawStr(v.V))
 	case "ptr":
 		p := reflect.New(rt.Elem())
@@ -327,5 +330,336 @@ func packReplay(args []string) int {
 }
 
 func init() {
-	register("pack", &family{replay: packReplay})
+	register("pack", &family{replay: packReplay, drive: packDrive})
+}
+
+// ---- driver (direction B): random struct types and values; events for Trace_Pack --------------------
+
+type pgen struct {
+	rng *rand.Rand
+	ctr int
+}
+
+var pgenPrims = []string{"bool", "int8", "int16", "int32", "int64", "int", "uint8", "uint16", "uint32", "uint64", "uint", "float32", "float64",
+	"string", "dur", "ustr", "uany"}
+
+type jm = map[string]interface{}
+
+func (g *pgen) prim() jm { return jm{"k": pgenPrims[g.rng.Intn(len(pgenPrims))]} }
+
+func (g *pgen) name() string { g.ctr++; return fmt.Sprintf("t%d", g.ctr) }
+
+// strct: 1..4 fields; every tag is unique in the whole type, so no two fields ever name the same or a
+// prefix-related setting (that is a separate, expected duplicate error)
+func (g *pgen) strct(depth int, top bool) jm {
+	n := 1 + g.rng.Intn(3)
+	if top {
+		n = 1 + g.rng.Intn(4)
+	}
+	fs := []interface{}{}
+	for i := 0; i < n; i++ {
+		mode := ""
+		var t jm
+		switch r := g.rng.Intn(10); {
+		case r == 0:
+			mode = "ignore"
+			t = g.typ(depth-1, "field")
+		case r == 1 && depth > 1:
+			mode = "inline"
+			t = g.strct(depth-1, false)
+		default:
+			t = g.typ(depth-1, "field")
+		}
+		tag := []string{}
+		if mode == "" {
+			if g.rng.Intn(3) == 0 {
+				tag = []string{g.name(), g.name()}
+			} else {
+				tag = []string{g.name()}
+			}
+		}
+		fs = append(fs, jm{"n": fmt.Sprintf("F%d", i), "tag": tag, "mode": mode, "t": t})
+	}
+	return jm{"k": "struct", "f": fs}
+}
+
+func (g *pgen) typ(depth int, pos string) jm {
+	if depth <= 0 || g.rng.Intn(3) == 0 {
+		return g.prim()
+	}
+	for {
+		switch g.rng.Intn(6) {
+		case 0:
+			if pos != "field" {
+				continue // pointers only as struct fields (nil pointers inside lists / maps are not claimed)
+			}
+			if g.rng.Intn(2) == 0 {
+				return jm{"k": "ptr", "e": g.prim()}
+			}
+			return jm{"k": "ptr", "e": g.strct(depth-1, false)}
+		case 1:
+			return jm{"k": "slice", "e": g.typ(depth-1, "elem")}
+		case 2:
+			if pos == "mapval" {
+				continue // fixed-size arrays directly as map values are not claimed
+			}
+			return jm{"k": "array", "n": 2, "e": g.typ(depth-1, "elem")}
+		case 3:
+			return jm{"k": "map", "e": g.typ(depth-1, "mapval")}
+		case 4:
+			return g.strct(depth-1, false)
+		default:
+			return g.prim()
+		}
+	}
+}
+
+var pgenInts = map[string][]int64{"int8": {-128, 127, 0, -1, 5}, "int16": {-32768, 32767, 0, 300}, "int32": {math.MinInt32, math.MaxInt32, 0, 70000},
+	"int64": {math.MinInt64, math.MaxInt64, 0, -1, 1 << 40}, "int": {math.MinInt64, math.MaxInt64, 0, 42}}
+var pgenUints = map[string][]uint64{"uint8": {0, 255, 7}, "uint16": {0, 65535, 256}, "uint32": {0, math.MaxUint32, 65536},
+	"uint64": {0, math.MaxUint64, 1 << 63, math.MaxInt64}, "uint": {0, math.MaxUint64, 9}}
+var pgenStrs = []string{"", "a$b.c,d{e}", "x y", "é", "0", "true", "[1,2]", "k: v", "ok"}
+var pgenDurs = []string{"1500000000", "0", "60000000000", "-1"}
+
+func (g *pgen) val(t jm) jm {
+	k := t["k"].(string)
+	switch k {
+	case "bool":
+		return jm{"k": "bool", "v": g.rng.Intn(2) == 0}
+	case "int8", "int16", "int32", "int64", "int":
+		p := pgenInts[k]
+		return jm{"k": "int", "v": strconv.FormatInt(p[g.rng.Intn(len(p))], 10)}
+	case "uint8", "uint16", "uint32", "uint64", "uint":
+		p := pgenUints[k]
+		return jm{"k": "uint", "v": strconv.FormatUint(p[g.rng.Intn(len(p))], 10)}
+	case "float32":
+		fs := []float32{0, -1.5, 0.1, math.MaxFloat32, -math.MaxFloat32, math.SmallestNonzeroFloat32, 16777216, float32(g.rng.NormFloat64()), float32(math.Inf(1))}
+		return jm{"k": "float", "v": canonFloat(float64(fs[g.rng.Intn(len(fs))]))}
+	case "float64":
+		fs := []float64{0, -1.5, 0.1, math.MaxFloat64, -math.MaxFloat64, math.SmallestNonzeroFloat64, 1e21, g.rng.NormFloat64() * 1e6, math.Inf(-1), 3.4028235e+38}
+		return jm{"k": "float", "v": canonFloat(fs[g.rng.Intn(len(fs))])}
+	case "string":
+		return jm{"k": "string", "v": pgenStrs[g.rng.Intn(len(pgenStrs))]}
+	case "ustr", "uany":
+		return jm{"k": "string", "v": []string{"ok", "x y", "é"}[g.rng.Intn(3)]}
+	case "dur":
+		return jm{"k": "dur", "v": pgenDurs[g.rng.Intn(len(pgenDurs))]}
+	case "ptr":
+		if g.rng.Intn(4) == 0 {
+			return jm{"k": "ptr", "nil": true}
+		}
+		return jm{"k": "ptr", "p": g.val(t["e"].(jm))}
+	case "slice":
+		if g.rng.Intn(5) == 0 {
+			return jm{"k": "slice", "nil": true}
+		}
+		n := g.rng.Intn(4)
+		xs := []interface{}{}
+		for i := 0; i < n; i++ {
+			xs = append(xs, g.val(t["e"].(jm)))
+		}
+		return jm{"k": "slice", "xs": xs}
+	case "array":
+		return jm{"k": "array", "xs": []interface{}{g.val(t["e"].(jm)), g.val(t["e"].(jm))}}
+	case "map":
+		if g.rng.Intn(5) == 0 {
+			return jm{"k": "map", "nil": true}
+		}
+		m := jm{}
+		for _, key := range []string{"k", "j", "k k"}[:g.rng.Intn(4)] {
+			m[key] = g.val(t["e"].(jm))
+		}
+		return jm{"k": "map", "m": m}
+	case "struct":
+		fs := []interface{}{}
+		for _, f := range t["f"].([]interface{}) {
+			fs = append(fs, g.val(f.(jm)["t"].(jm)))
+		}
+		return jm{"k": "struct", "f": fs}
+	}
+	panic("val " + k)
+}
+
+// canonTree: canonical generic value (canonGo) -> the specification's tree encoding
+func canonTree(v interface{}) jm {
+	switch x := v.(type) {
+	case nil:
+		return jm{"k": "nil"}
+	case string:
+		switch x[:2] {
+		case "s:":
+			return jm{"k": "str", "v": x[2:]}
+		case "n:":
+			return jm{"k": "num", "v": x[2:]}
+		default:
+			return jm{"k": "bool", "v": x == "b:true"}
+		}
+	case map[string]interface{}:
+		d := jm{}
+		for k, e := range x {
+			d[k] = canonTree(e)
+		}
+		return jm{"k": "n", "d": d, "a": []interface{}{}}
+	case []interface{}:
+		a := []interface{}{}
+		for _, e := range x {
+			a = append(a, canonTree(e))
+		}
+		return jm{"k": "n", "d": jm{}, "a": a}
+	}
+	return jm{"k": "?"}
+}
+
+var pgenFaults = []jm{
+	{"k": "str", "v": "x"}, {"k": "n", "d": jm{"zz": jm{"k": "num", "v": "1"}}, "a": []interface{}{}}, {"k": "n", "d": jm{}, "a": []interface{}{jm{"k": "num", "v": "1"}}},
+	{"k": "num", "v": "300"}, {"k": "num", "v": "-129"}, {"k": "num", "v": "32768"}, {"k": "num", "v": "-2147483649"}, {"k": "num", "v": "9223372036854775808"},
+	{"k": "num", "v": "256"}, {"k": "num", "v": "-1"}, {"k": "num", "v": "65536"}, {"k": "num", "v": "4294967296"}, {"k": "num", "v": "1e+39"},
+	{"k": "str", "v": "${nope}"}, {"k": "str", "v": "x${nope.deeper}y"}, {"k": "num", "v": "7"}, {"k": "bool", "v": true}, {"k": "str", "v": "bad"}, {"k": "num", "v": "1"},
+	{"k": "n", "d": jm{}, "a": []interface{}{jm{"k": "num", "v": "1"}, jm{"k": "num", "v": "2"}, jm{"k": "num", "v": "3"}}},
+}
+
+// setAtPath replaces the value at path (names / indices) in generic data; false if the path does not exist
+func setAtPath(root interface{}, path []interface{}, nv interface{}) (interface{}, bool) {
+	if len(path) == 0 {
+		return nv, true
+	}
+	switch seg := path[0].(type) {
+	case string:
+		m, ok := root.(map[string]interface{})
+		if !ok {
+			return root, false
+		}
+		child, has := m[seg]
+		if !has {
+			return root, false
+		}
+		c, ok := setAtPath(child, path[1:], nv)
+		m[seg] = c
+		return m, ok
+	case int:
+		l, ok := root.([]interface{})
+		if !ok || seg >= len(l) {
+			return root, false
+		}
+		c, ok := setAtPath(l[seg], path[1:], nv)
+		l[seg] = c
+		return l, ok
+	}
+	return root, false
+}
+
+func packDrive(args []string) int {
+	fs := flag.NewFlagSet("pack", flag.ExitOnError)
+	seed := fs.Int64("seed", 1, "seed")
+	n := fs.Int("n", 1000, "events")
+	fs.Parse(args)
+	g := &pgen{rng: rand.New(rand.NewSource(*seed))}
+	w := json.NewEncoder(os.Stdout)
+	w.SetEscapeHTML(false)
+	sep := ucfg.PathSep(".")
+	for i := 0; i < *n; {
+		g.ctr = 0
+		tyJ := g.strct(3, true)
+		valJ := g.val(tyJ)
+		var ty tdesc
+		var val vdesc
+		tb, _ := json.Marshal(tyJ)
+		vb, _ := json.Marshal(valJ)
+		if json.Unmarshal(tb, &ty) != nil || json.Unmarshal(vb, &val) != nil {
+			return 2
+		}
+		ev := jm{"ty": tyJ, "val": valJ}
+		var generic map[string]interface{}
+		var rt reflect.Type
+		panicked, msg := guard(func() {
+			rt = buildType(ty)
+			v := buildVal(ty, val, rt)
+			cfg, err := ucfg.NewFrom(v.Interface(), sep)
+			if err != nil {
+				ev["tree"], ev["back"] = jm{"k": "nil"}, "pack: "+err.Error()
+				return
+			}
+			if err := cfg.Unpack(&generic, sep); err != nil {
+				ev["tree"], ev["back"] = jm{"k": "nil"}, "generic-unpack: "+err.Error()
+				return
+			}
+			ev["tree"] = canonTree(canonGo(generic))
+			back := reflect.New(rt)
+			if err := cfg.Unpack(back.Interface(), sep); err != nil {
+				ev["back"] = "typed-unpack: " + err.Error()
+				return
+			}
+			if eqPack(ty, v, back.Elem()) {
+				ev["back"] = "same"
+			} else {
+				ev["back"] = fmt.Sprintf("differs: %+v -> %+v", v.Interface(), back.Elem().Interface())
+			}
+		})
+		if panicked {
+			ev["tree"], ev["back"] = jm{"k": "nil"}, "panic: "+msg
+		}
+		// a random setting of the packed configuration, replaced by a random faulty value
+		if ev["back"] == "same" && generic != nil {
+			var path []interface{}
+			var segs []interface{}
+			var cur interface{} = map[string]interface{}(generic)
+			for {
+				var keys []interface{}
+				switch x := cur.(type) {
+				case map[string]interface{}:
+					for _, k := range sortedKeys(x) {
+						if canonGo(x[k]) != nil {
+							keys = append(keys, k)
+						}
+					}
+				case []interface{}:
+					for j := range x {
+						keys = append(keys, j)
+					}
+				}
+				if len(keys) == 0 || (len(path) > 0 && g.rng.Intn(3) == 0) {
+					break
+				}
+				k := keys[g.rng.Intn(len(keys))]
+				path = append(path, k)
+				if s, ok := k.(string); ok {
+					segs = append(segs, jm{"n": s})
+					cur = cur.(map[string]interface{})[s]
+				} else {
+					segs = append(segs, jm{"i": k.(int)})
+					cur = cur.([]interface{})[k.(int)]
+				}
+			}
+			if len(path) > 0 {
+				ft := pgenFaults[g.rng.Intn(len(pgenFaults))]
+				fb, _ := json.Marshal(ft)
+				faulty, ok := setAtPath(map[string]interface{}(generic), path, faultTreeGo(fb))
+				if ok {
+					opts := []ucfg.Option{sep, ucfg.VarExp, ucfg.MetaData(ucfg.Meta{Source: "trace.yml"})}
+					var o faultObs
+					panicked, msg := guard(func() {
+						cfg, err := ucfg.NewFrom(faulty, opts...)
+						if err != nil {
+							o = faultObs{Kind: "build", Msg: err.Error()}
+							return
+						}
+						if err := cfg.Unpack(reflect.New(rt).Interface(), opts...); err != nil {
+							o = observeErr(err)
+						} else {
+							o = faultObs{Kind: "ok"}
+						}
+					})
+					if panicked {
+						o = faultObs{Kind: "panic", Msg: msg}
+					}
+					ev["fault"] = jm{"path": segs, "tree": ft, "obs": jm{"kind": o.Kind, "path": o.Path, "source": o.Source, "typed": o.Typed, "msg": o.Msg}}
+				}
+			}
+		}
+		if w.Encode(ev) != nil {
+			return 2
+		}
+		i++
+	}
+	return 0
 }
